@@ -169,6 +169,30 @@ PROPS['C07'].update({
     'assumptions': ASSUME_COMMON + ASSUME_ND + ASSUME_BC + ['rule T1 as for C02'],
 })
 
+ASSUME_PWL = [
+    'rule S4: the field AffTree::polytope_cache (interior-mutable scratch buffer, RefCell) is dropped from the struct; functions using it are not extracted',
+    'rule C1/C2: `arr.map(|x| *x <= 0.)` is replaced by the helper nd_le_zero (assumed contract bv[i] == (v[i] <= 0)); `opt.map(|(f, _)| e)` is written as the match it abbreviates',
+    'rule I8: `tree.terminal_indices().collect_vec()` is the trusted helper terminal_indices_vec (exactly the indices flagged as leaf, ascending)',
+    'Tree::node_value_mut is trusted in this unit (closure over &mut); the other Tree functions used are re-verified here with the contracts of unit tree_graph',
+    'usize is 64 bit (global size_of usize == 8) for the label bit arithmetic; decisions have at most 15 rows',
+]
+PROPS['C09'].update({
+    'level': 'other',
+    'units': ['pwl_tree'],
+    'technique': 'Verus contracts on find_terminal / evaluate_decision / index_from_label / evaluate (label = decide(node, x), labels follow the path, evaluate == denoted partial function) + bounded replay (bc regions) for the polyhedra()/polyhedra_iter() streams',
+    'level_text': ('Mixed. PROVED modulo "f64 = reals" (Verus, all trees of any shape / index layout, all inputs): index_from_label computes sum 2^i[b_i]; evaluate_decision returns decide(node, x) '
+                   '(bit i set iff row_i.x <= b_i); find_terminal returns a terminal together with exactly the labels of a path from the start node to it such that every label is the one '
+                   'its decision selects for x (so x satisfies every reported path condition), returns None exactly when the selected branch of a reached decision is missing, and never '
+                   'reaches its panic; evaluate(x) equals the denoted partial function tree_fn(root, x), undefinedness included. '
+                   'BOUNDED (bc regions): PolyhedraGen / PolyhedraIter streams (order, depth, sibling counters, path polytopes, all skip_subtree positions), interior points routed through '
+                   'their node, disjoint interiors, coverage of total trees.'),
+    'design_ref': 'DESIGN.md §4 C09',
+    'assumptions': ASSUME_COMMON + ASSUME_SLAB + ASSUME_ND + ASSUME_PWL + ASSUME_BC,
+})
+PROPS['C02']['units'] = ['pwl_schema', 'pwl_tree']
+PROPS['C02']['level_text'] = PROPS['C02']['level_text'].replace('BOUNDED (bc compose', 'Also PROVED at tree level: AffTree::apply_func / apply_func_at_node compose the affine map on the left of exactly the terminals, keep decisions and cached states, and tree_fn(result, x) == tree_fn(old, x).map(a) for every x (the affine special case of the law). BOUNDED (bc compose')
+PROPS['C02']['assumptions'] = PROPS['C02']['assumptions'] + ASSUME_SLAB + ASSUME_PWL
+
 NOT_APPLICABLE = {
     'C10': 'correctness of the external LP solver (minilp simplex) seen through a 20-line adapter: no contract within reach can decide it; a contract on solve_linprog would have to be assumed',
     'C19': 'fmt::Formatter / string output: Verus has no model of core::fmt output or str contents; deciding it means parsing output back, which is testing, not contract verification',
